@@ -49,7 +49,7 @@ func (s *Softmax) Apply(inputs []tensor.Tensor) ([]tensor.Tensor, error) {
 		axis += nDims
 	}
 
-	out, err := tensor.SoftMax(inputs[0], axis)
+	out, err := softmaxAlongAxis(tensor.SoftMax, inputs[0], axis)
 	if err != nil {
 		return nil, err
 	}
@@ -81,4 +81,40 @@ func (s *Softmax) GetInputTypeConstraints() [][]tensor.Dtype {
 // String implements the stringer interface, and can be used to format errors or messages.
 func (s *Softmax) String() string {
 	return "softmax operator"
+}
+
+// softmaxAlongAxis applies the given (log)softmax kernel of the tensor library along an axis of x.
+// The kernel the library uses for the last axis takes the maximum of every row from the first
+// element of the whole tensor instead of from the row itself, such that a large value in one row
+// turns other rows into NaN. The kernel for the other axes does not have this problem, hence the
+// tensor gets a trailing axis of size one for the computation when the last axis is requested.
+func softmaxAlongAxis(
+	kernel func(x tensor.Tensor, axis int, opts ...tensor.FuncOpt) (tensor.Tensor, error),
+	x tensor.Tensor,
+	axis int,
+) (tensor.Tensor, error) {
+	shape := x.Shape().Clone()
+	if axis != len(shape)-1 {
+		return kernel(x, axis)
+	}
+
+	expanded, ok := x.Clone().(tensor.Tensor)
+	if !ok {
+		return nil, ops.ErrTypeAssert("tensor.Tensor", x.Clone())
+	}
+
+	if err := expanded.Reshape(append(shape.Clone(), 1)...); err != nil {
+		return nil, err
+	}
+
+	out, err := kernel(expanded, axis)
+	if err != nil {
+		return nil, err
+	}
+
+	if err := out.Reshape(shape...); err != nil {
+		return nil, err
+	}
+
+	return out, nil
 }
